@@ -233,6 +233,28 @@ func c16Actors() []c16Actor {
 				e.note("V.close", stream.Close(e.w.Ctx))
 			})
 		}},
+		{"Z session transaction committed by one thread while another uses the session's context for a collection drop", func(e *c16Env, k int) {
+			sess, _ := e.w.Client.StartSession()
+			started := false
+			e.spawn(fmt.Sprintf("Z%d.txn", k), func() {
+				err := sess.StartTransaction()
+				e.note("Z.start", err)
+				if err == nil {
+					started = true
+					e.note("Z.commit", sess.CommitTransaction(e.w.Ctx), lungo.ErrSessionEnded)
+				}
+			})
+			e.spawn(fmt.Sprintf("Z%d.ddl", k), func() {
+				_ = lungo.WithSession(e.w.Ctx, sess, func(sc lungo.ISessionContext) error {
+					err := e.w.C("d", fmt.Sprintf("z%d", k)).Drop(sc)
+					if err != nil && !strings.Contains(err.Error(), "nested transaction") {
+						e.note("Z.drop", err)
+					}
+					return nil
+				})
+				_ = started
+			})
+		}},
 		{"C engine Close", func(e *c16Env, k int) {
 			e.spawn(fmt.Sprintf("C%d", k), func() {
 				e.w.Engine.Close()
@@ -370,9 +392,19 @@ func init() {
 			bound int
 		}
 		var scs []scen
+		// Z (two threads on one session) is not part of the multiset product: it gets scenarios of its own below
+		zi := -1
+		for i, a := range actors {
+			if a.name[0] == 'Z' {
+				zi = i
+			}
+		}
+		inProduct := func(i int) bool { return i != zi }
 		for i := range actors {
 			for j := i; j < len(actors); j++ {
-				scs = append(scs, scen{[]int{i, j}, 2})
+				if inProduct(i) && inProduct(j) {
+					scs = append(scs, scen{[]int{i, j}, 2})
+				}
 			}
 		}
 		if !c.Quick() {
@@ -382,7 +414,9 @@ func init() {
 			for i := range actors {
 				for j := i; j < len(actors); j++ {
 					for k := j; k < len(actors); k++ {
-						scs = append(scs, scen{[]int{i, j, k}, 1})
+						if inProduct(i) && inProduct(j) && inProduct(k) {
+							scs = append(scs, scen{[]int{i, j, k}, 1})
+						}
 					}
 				}
 			}
@@ -400,13 +434,27 @@ func init() {
 				scs = append(scs, scen{[]int{name(t[0] + " "), name(t[1] + " "), name(t[2] + " ")}, 1})
 			}
 		}
+		// Z alone and next to a plain writer, a committing session, a closing engine
+		for _, other := range []string{"", "D ", "S ", "C "} {
+			idx := []int{zi}
+			for i, a := range actors {
+				if other != "" && strings.HasPrefix(a.name, other) {
+					idx = append(idx, i)
+				}
+			}
+			b := 2
+			if !c.Quick() {
+				b = 3
+			}
+			scs = append(scs, scen{idx, b})
+		}
 		// scenarios with four or more actor threads (two of the two-thread actors E, X, V) get one preemption less
 		for i := range scs {
 			threads := 0
 			for _, k := range scs[i].idx {
 				threads++
 				switch actors[k].name[0] {
-				case 'E', 'X', 'V', 'Y':
+				case 'E', 'X', 'V', 'Y', 'Z':
 					threads++
 				}
 			}
